@@ -8,6 +8,7 @@ import hashlib
 import json
 import multiprocessing
 import os
+import threading
 import sys
 import time
 import traceback
@@ -33,11 +34,13 @@ class Result:
 
 class Part:
     def __init__(self, name, strategy, execute, quick, thorough, shards=16, exhaustive=None,
-                 shrink_quick=True, quick_shards=8, machine=None, steps=30):
+                 shrink_quick=True, quick_shards=8, machine=None, steps=30, cpu_limit=120,
+                 quick_factor=4):
         self.name = name
         self.strategy = strategy      # callable(tier) -> hypothesis strategy of JSON-able cases
         self.execute = execute        # callable(case) -> Result
-        self.quick = quick            # examples in quick tier
+        self.quick = quick * quick_factor   # examples in quick tier (the tier takes seconds: the
+        #                               factor was added once that was measured; see DESIGN 9)
         self.thorough = thorough      # examples per shard in thorough tier
         self.shards = shards
         self.exhaustive = exhaustive  # callable(tier) -> iterable of cases (finite enumeration)
@@ -45,6 +48,7 @@ class Part:
         self.quick_shards = quick_shards
         self.machine = machine        # callable(tier) -> RuleBasedStateMachine subclass (see C15)
         self.steps = steps
+        self.cpu_limit = cpu_limit    # seconds of CPU one case may use (None: unlimited), see guarded()
 
 
 CATALOGUE = {"inc", "dbl", "neg", "pair", "tsum", "size", "wrap", "add2", "cnt", "is_even", "lt3",
@@ -135,6 +139,7 @@ class Stats:
         self.found = {}      # signature -> {"detail":..., "case":...}
         self.known_hits = collections.Counter()
         self.parts = collections.Counter()
+        self.aborted = False
 
     def merge(self, o):
         self.evaluations += o.evaluations
@@ -147,6 +152,41 @@ class Stats:
             self.found.setdefault(k, v)
         self.known_hits.update(o.known_hits)
         self.parts.update(o.parts)
+
+
+_SKIPPED = Result([])     # stands for the cases not run after a part was aborted (see guarded())
+
+
+class CaseCpuLimit(BaseException):
+    """raised by the SIGVTALRM handler (BaseException: `except Exception` in streamz must not eat it)"""
+
+
+def _on_vtalrm(signum, frame):
+    raise CaseCpuLimit()
+
+
+def guarded(pid, part, case):
+    """part.execute(case) under a CPU-time limit.  Cases take milliseconds; one that burns
+    part.cpu_limit seconds of *CPU* (ITIMER_VIRTUAL: not wall clock, so machine load cannot
+    trigger it) is an endless loop in the code under test and is reported as a violation
+    instead of stalling the check until the watchdog (exit 2)."""
+    import signal
+    limit = getattr(part, "cpu_limit", None)
+    if not limit or threading.current_thread() is not threading.main_thread():
+        return part.execute(case)
+    old = signal.signal(signal.SIGVTALRM, _on_vtalrm)
+    signal.setitimer(signal.ITIMER_VIRTUAL, limit, 2.0)   # repeats: asyncio may swallow one
+    try:
+        return part.execute(case)
+    except CaseCpuLimit:
+        signal.setitimer(signal.ITIMER_VIRTUAL, 0)
+        return Result([("%s:case-did-not-terminate" % pid,
+                        "the case used more than %d s of CPU time without finishing (cases "
+                        "normally take milliseconds): endless loop" % limit)],
+                      nontrivial=True, classes=["cpu-limit"])
+    finally:
+        signal.setitimer(signal.ITIMER_VIRTUAL, 0)
+        signal.signal(signal.SIGVTALRM, old)
 
 
 def load_known(pid):
@@ -163,6 +203,8 @@ def _run_part(pid, part, tier, seed_value, known_sigs, n_examples, want_shrink):
     exclude = set(known_sigs)
 
     def account(case, res):
+        if res is _SKIPPED:
+            return
         stats.evaluations += 1
         stats.parts[part.name] += 1
         for c in res.classes:
@@ -180,8 +222,17 @@ def _run_part(pid, part, tier, seed_value, known_sigs, n_examples, want_shrink):
     def run_case(case):
         case = dict(case)
         case["part"] = part.name
+        if stats.aborted:
+            return case, _SKIPPED
         try:
-            res = part.execute(case)
+            res = guarded(pid, part, case)
+            if any(s_.endswith(":case-did-not-terminate") for s_, _ in res.violations):
+                # neither shrunk nor searched further: every further attempt costs the limit again
+                for s_, d_ in res.violations:
+                    if s_ not in exclude:
+                        stats.found[s_] = {"detail": d_, "case": case}
+                        exclude.add(s_)
+                stats.aborted = True
         except HarnessError:
             raise
         except Exception as e:  # exceptions escaping execute(): streamz's or ours?
@@ -465,7 +516,7 @@ def run_property(mod, tier, seed_value, only_part=None):
 
 def replay_case(mod, case):
     part = [p for p in mod.PARTS if p.name == case.get("part", mod.PARTS[0].name)][0]
-    return part.execute(case)
+    return guarded(mod.ID, part, case)
 
 
 def replay(mod, path):
